@@ -402,8 +402,9 @@ class MeshTri1(MeshSimplex, Mesh2D):
             for i, p in enumerate(np.sort(other.p[0])):
                 points = np.hstack((
                     points,
-                    np.vstack((self.p,
-                               np.array(self.p.shape[1] * [p])))
+                    # vertices only: the connectivity is offset by nvertices
+                    np.vstack((self.p[:, :self.nvertices],
+                               np.array(self.nvertices * [p])))
                 ))
                 if i == len(other.p[0]) - 1:
                     pass
